@@ -96,6 +96,12 @@ class C03(Check):
             if tlen and clen + tlen > 65535:
                 continue            # beyond what the format lets a reader find
             add_archive(data, man, "genzip-window")
+        # CP437 names and comments around the ASCII boundary: a lone 0x7f / 0x80 / 0x81 / 0xff among ASCII bytes
+        for hb in (0x7f, 0x80, 0x81, 0xa0, 0xff):
+            ents = [Entry(bytes([hb]) + b"a.txt", b"x"), Entry(b"mid" + bytes([hb]) + b".bin", b"y", comment=b"c" + bytes([hb])),
+                    Entry(b"plain", b"z", comment=bytes([hb]))]
+            data, man = genzip.build(ents, comment=bytes([hb]))
+            add_archive(data, man, "genzip-cp437-edge")
         # unsupported methods: must fail per entry, not per archive
         for m in (1, 6, 9, 14, 95, 98):
             e = Entry(b"odd", b"payload", payload=b"payload"); e.method = m
